@@ -95,17 +95,17 @@ theorem cinv_ret_grant {s : CSh} {pre post : List CTh} {t : CTh} (h : CInv s (pr
   simp only [KOk, hc] at hko
   have hsi := hti.si
   simp only [SI, hc] at hsi
-  have hk : pend t = [] ∧ restPairs t = [] := by
+  have hk : pend t = [] ∧ restPairs t = [] ∧ unrg t = [] := by
     rcases hop with ⟨hiop, _⟩ | ⟨_, _, rfl⟩
-    · rw [hiop] at hko; subst hko; simp [pend, restPairs, hc]
-    · simp [pend, restPairs, hc]
+    · rw [hiop] at hko; subst hko; simp [pend, restPairs, unrg, hc]
+    · simp [pend, restPairs, unrg, hc]
   have hacq : acq t = true := by
     rcases hop with ⟨hiop, _⟩ | ⟨hiop, _, _⟩ <;> simp [acq, isInner, hc, hiop]
   have hb : below t.held t.curEnt = true ∧ okD ((t.curEnt, m) :: t.held) t.script = true := by
     rcases hop with ⟨hiop, rfl⟩ | ⟨hiop, rfl, _⟩
     · rw [hiop] at hsi; exact hsi
     · rw [hiop] at hsi
-      simp only [restEnts, hk.2, List.map_nil, chain, pushAll, Bool.and_eq_true] at hsi
+      simp only [restEnts, hk.2.1, List.map_nil, chain, pushAll, Bool.and_eq_true] at hsi
       exact ⟨hsi.1.1, hsi.2⟩
   have s_eq : ({ s with dm := s.dm } : CSh) = s := rfl
   refine cinv_assemble h (fun o hw => hw) ?_ ?_ ⟨h.rw.z, h.rw.lt, h.rw.inj⟩
@@ -114,12 +114,12 @@ theorem cinv_ret_grant {s : CSh} {pre post : List CTh} {t : CTh} (h : CInv s (pr
   · intro y k' hk'
     rw [hk']
     have e1 : regc y t = t.held.countP (fun h => h.1 == y) + (if t.curEnt = y then 1 else 0) := by
-      simp [regc, hacq, restEnts, hk.2]
+      simp [regc, hacq, restEnts, hk.2.1, hk.2.2]
     have e2 : regc y { grant t m with ctl := .idle }
         = (if t.curEnt = y then 1 else 0) + t.held.countP (fun h => h.1 == y) := by
-      simp [regc, acq, isInner, restEnts, restPairs, grant, List.countP_cons] <;> omega
+      simp [regc, acq, isInner, restEnts, restPairs, unrg, grant, List.countP_cons] <;> omega
     rw [e1, e2]; omega
-  · refine ⟨fun _ => by simpa [grant] using hi, by simp [KOk], ?_, ?_, ?_, ?_⟩
+  · refine ⟨fun _ => by simpa [grant] using hi, by simp [KOk], ?_, ?_, ?_, ?_, by simp [unrg]⟩
     · exact lk_ret_grant hc hi hti.lk m
         (by rcases hop with ⟨a, b⟩ | ⟨a, b, _⟩; exact Or.inl ⟨a, b⟩; exact Or.inr ⟨a, b⟩) hk.1 hb.1
     · simp only [SI, grant]; exact hb.2
@@ -169,13 +169,13 @@ theorem cinv_ret_rlock_next {s : CSh} {pre post : List CTh} {t : CTh} (h : CInv 
     rw [hk']
     have e1 : regc y t = t.held.countP (fun h => h.1 == y) + (if t.curEnt = y then 1 else 0)
         + ((if x = y then 1 else 0) + (rest.map (·.1)).count y) := by
-      simp [regc, hacq, restEnts, restPairs, hc, List.count_cons]; omega
+      simp [regc, hacq, restEnts, restPairs, unrg, hc, List.count_cons]; omega
     have e2 : regc y (startInner { grant t .r with ctl := .idle } .rlock x o1 (.rl rest))
         = ((if t.curEnt = y then 1 else 0) + t.held.countP (fun h => h.1 == y)) + (if x = y then 1 else 0)
           + (rest.map (·.1)).count y := by
-      simp [regc, acq, isInner, restEnts, restPairs, grant, startInner, List.countP_cons] <;> omega
+      simp [regc, acq, isInner, restEnts, restPairs, unrg, grant, startInner, List.countP_cons] <;> omega
     rw [e1, e2]; omega
-  · refine ⟨?_, by simp [KOk, startInner], ?_, ?_, hti.so.cons .r hb, ?_⟩
+  · refine ⟨?_, by simp [KOk, startInner], ?_, ?_, hti.so.cons .r hb, ?_, by simp [unrg, startInner]⟩
     · intro hin; simp [isInner, startInner] at hin
     · exact lk_start_acq hni' hi' hlk' .rlock (Or.inr rfl) x o1 _ (by simp [pend, startInner]) hz
     · simp only [SI, startInner, restEnts, restPairs, grant, chain, pushAll, Bool.and_eq_true]
@@ -185,52 +185,57 @@ theorem cinv_ret_rlock_next {s : CSh} {pre post : List CTh} {t : CTh} (h : CInv 
       simp only [restPairs, startInner] at hp
       exact hti.tl.t3 p (by simp [restPairs, hc, hp])
 
-/-- `Unlock` / the last `RUnlock` of a call has returned. -/
+/-- `StarvingMutex.Unlock` / the last `RUnlock` of a call has returned: the unregistration follows. -/
 theorem cinv_ret_plain {s : CSh} {pre post : List CTh} {t : CTh} (h : CInv s (pre ++ t :: post))
-    {k : Kont} (hc : t.ctl = .inner k) (hi : t.ipc = .idle)
-    (hop : t.iop = .unlock ∨ (t.iop = .runlock ∧ k = .ru [])) :
-    CInv s (pre ++ { t with ctl := .idle } :: post) := by
+    {k : Kont} (hc : t.ctl = .inner k) (hi : t.ipc = .idle) {c' : Ctl}
+    (hop : (t.iop = .unlock ∧ ∃ x, k = .ul x ∧ c' = .unregA x) ∨
+      (t.iop = .runlock ∧ ∃ ids, k = .ru [] ids ∧ c' = .runregA ids)) :
+    CInv s (pre ++ { t with ctl := c' } :: post) := by
   have hti := h.th t (by simp)
-  have hko := hti.ko
-  simp only [KOk, hc] at hko
   have hsi := hti.si
   simp only [SI, hc] at hsi
-  have hk : pend t = [] ∧ restPairs t = [] := by
-    rcases hop with hiop | ⟨_, rfl⟩
-    · rw [hiop] at hko; subst hko; simp [pend, restPairs, hc]
-    · simp [pend, restPairs, hc]
+  have hk : pend t = [] ∧ restPairs t = [] ∧ unrg { t with ctl := c' } = unrg t := by
+    rcases hop with ⟨_, x, rfl, rfl⟩ | ⟨_, ids, rfl, rfl⟩ <;> simp [pend, restPairs, unrg, hc]
+  have hni' : isInner { t with ctl := c' } = false := by
+    rcases hop with ⟨_, x, _, rfl⟩ | ⟨_, ids, _, rfl⟩ <;> simp [isInner]
+  have hfd : fDm { t with ctl := c' } = 0 := by
+    rcases hop with ⟨_, x, _, rfl⟩ | ⟨_, ids, _, rfl⟩ <;> simp [fDm]
   have hacq : acq t = false := by
-    rcases hop with hiop | ⟨hiop, _⟩ <;> simp [acq, hiop]
+    rcases hop with ⟨hiop, _⟩ | ⟨hiop, _⟩ <;> simp [acq, hiop]
   have hok : okD t.held t.script = true := by
-    rcases hop with hiop | ⟨hiop, _⟩ <;> (rw [hiop] at hsi; exact hsi)
+    rcases hop with ⟨hiop, _⟩ | ⟨hiop, _⟩ <;> (rw [hiop] at hsi; exact hsi)
   have hbR : ∀ o, bonusR t o = 0 := by
-    intro o; rcases hop with hiop | ⟨hiop, _⟩ <;> simp [bonusR, hiop]
+    intro o; rcases hop with ⟨hiop, _⟩ | ⟨hiop, _⟩ <;> simp [bonusR, hiop]
   have hbW : ∀ o, bonusW t o = false := by
-    intro o; rcases hop with hiop | ⟨hiop, _⟩ <;> simp [bonusW, hiop]
+    intro o; rcases hop with ⟨hiop, _⟩ | ⟨hiop, _⟩ <;> simp [bonusW, hiop]
+  have o' := outside_of hni'
   refine cinv_assemble h (fun o hw => hw) ?_ ?_ ⟨h.rw.z, h.rw.lt, h.rw.inj⟩
     (fun u _ htl _ => ⟨htl.t1, htl.t2, htl.t3⟩) ?_
-  · intro k' hk'; simp only [fDm, hc] at hk'; simp only [fDm]; exact hk'
+  · intro k' hk'; simp only [fDm, hc] at hk'; rw [hfd]; exact hk'
   · intro y k' hk'
     rw [hk']
-    have e1 : regc y t = t.held.countP (fun h => h.1 == y) := by simp [regc, hacq, restEnts, hk.2]
-    have e2 : regc y { t with ctl := .idle } = t.held.countP (fun h => h.1 == y) := by
-      simp [regc, acq, isInner, restEnts, restPairs]
+    have e1 : regc y t = t.held.countP (fun h => h.1 == y) + (unrg t).count y := by
+      simp [regc, hacq, restEnts, hk.2.1]
+    have e2 : regc y { t with ctl := c' } = t.held.countP (fun h => h.1 == y) + (unrg t).count y := by
+      rw [regc_outside hni', hk.2.2]
     rw [e1, e2]
-  · refine ⟨fun _ => hi, by simp [KOk], ?_, by simp only [SI]; exact hok, hti.so, ⟨hti.tl.t1, ?_, ?_⟩⟩
-    · refine (lk_outside_iff (t := { t with ctl := .idle }) (by simp [isInner]) hi).mpr ?_
+  · refine ⟨fun _ => hi, ?_, ?_, ?_, hti.so, ⟨hti.tl.t1, ?_, ?_⟩, by rw [hk.2.2]; exact hti.nd⟩
+    · rcases hop with ⟨_, x, _, rfl⟩ | ⟨_, ids, _, rfl⟩ <;> simp [KOk]
+    · refine (lk_outside_iff (t := { t with ctl := c' }) hni' hi).mpr ?_
       intro o
       have he := hti.lk.eq o
       rw [proj_of_idle o hi, after_idle, hk.1, hbR, hbW] at he
       simp only [List.count_nil, Nat.add_zero, Bool.or_false, Prod.mk.injEq] at he
       exact he
-    · intro ha; simp [acq, isInner] at ha
-    · intro p hp; simp [restPairs] at hp
+    · rcases hop with ⟨_, x, _, rfl⟩ | ⟨_, ids, _, rfl⟩ <;> (simp only [SI]; exact hok)
+    · intro ha; rw [o'.acq] at ha; cases ha
+    · intro p hp; rw [o'.rest] at hp; cases hp
 
 /-- An `RUnlock` of a call has returned and the next object follows. -/
 theorem cinv_ret_runlock_next {s : CSh} {pre post : List CTh} {t : CTh} (h : CInv s (pre ++ t :: post))
-    {o1 : Nat} {rest : List Nat} (hc : t.ctl = .inner (.ru (o1 :: rest))) (hi : t.ipc = .idle)
+    {o1 : Nat} {rest ids : List Nat} (hc : t.ctl = .inner (.ru (o1 :: rest) ids)) (hi : t.ipc = .idle)
     (hiop : t.iop = .runlock) :
-    CInv s (pre ++ startInner t .runlock 0 o1 (.ru rest) :: post) := by
+    CInv s (pre ++ startInner t .runlock 0 o1 (.ru rest ids) :: post) := by
   have hti := h.th t (by simp)
   have hsi := hti.si
   simp only [SI, hc, hiop] at hsi
@@ -258,17 +263,19 @@ theorem cinv_ret_runlock_next {s : CSh} {pre post : List CTh} {t : CTh} (h : CIn
   · intro k' hk'; simp only [fDm, hc] at hk'; simp only [fDm, startInner]; exact hk'
   · intro y k' hk'
     rw [hk']
-    have e1 : regc y t = t.held.countP (fun h => h.1 == y) := by
-      simp [regc, hacq, restEnts, restPairs, hc]
-    have e2 : regc y (startInner t .runlock 0 o1 (.ru rest)) = t.held.countP (fun h => h.1 == y) := by
-      simp [regc, acq, isInner, restEnts, restPairs, startInner]
+    have e1 : regc y t = t.held.countP (fun h => h.1 == y) + ids.count y := by
+      simp [regc, hacq, restEnts, restPairs, unrg, hc]
+    have e2 : regc y (startInner t .runlock 0 o1 (.ru rest ids)) = t.held.countP (fun h => h.1 == y) + ids.count y := by
+      simp [regc, acq, isInner, restEnts, restPairs, unrg, startInner]
     rw [e1, e2]
-  · have hpend' : pend (startInner t .runlock 0 o1 (.ru rest)) = rest := by simp [pend, startInner]
-    have hin : ∀ o, inA (startInner t .runlock 0 o1 (.ru rest)) o = (o1 == o) := by
+  · have hpend' : pend (startInner t .runlock 0 o1 (.ru rest ids)) = rest := by simp [pend, startInner]
+    have hin : ∀ o, inA (startInner t .runlock 0 o1 (.ru rest ids)) o = (o1 == o) := by
       intro o; simp [inA, isInner, startInner]
-    have hcR' : ∀ o, cR (startInner t .runlock 0 o1 (.ru rest)) o = cR t o := fun _ => rfl
-    have hcW' : ∀ o, cW (startInner t .runlock 0 o1 (.ru rest)) o = cW t o := fun _ => rfl
-    refine ⟨?_, by simp [KOk, startInner], ⟨?_, ?_, ?_, ?_⟩, ?_, hti.so, ⟨hti.tl.t1, ?_, ?_⟩⟩
+    have hcR' : ∀ o, cR (startInner t .runlock 0 o1 (.ru rest ids)) o = cR t o := fun _ => rfl
+    have hcW' : ∀ o, cW (startInner t .runlock 0 o1 (.ru rest ids)) o = cW t o := fun _ => rfl
+    have hnd0 : (unrg (startInner t .runlock 0 o1 (.ru rest ids))).Nodup := by
+      have := hti.nd; simpa [unrg, hc, startInner] using this
+    refine ⟨?_, by simp [KOk, startInner], ⟨?_, ?_, ?_, ?_⟩, ?_, hti.so, ⟨hti.tl.t1, ?_, ?_⟩, hnd0⟩
     · intro hin'; simp [isInner, startInner] at hin'
     · intro o
       rw [proj_startInner, hpend', hcR', hcW', bonusR_start, bonusW_start]
